@@ -72,7 +72,7 @@ def dump_obj(r):
     data = r.data
     shape = [int(x) for x in data.shape]
     rows = []
-    if data.ndim == 3 and 0 not in data.shape:
+    if data.ndim == 3:
         rows = np.asarray(data).astype(np.int64).transpose((1, 0, 2)).tolist()
     vs = []
     names = r.variants.dtype.names
@@ -109,8 +109,9 @@ class Enc:
                 f"{L.lst(rows, lambda r: L.lst(r, self.call))} {L.zl(shape)})")
 
     def geno_in(self, inp):
-        n, p = len(inp["samples"]), len(inp["variants"])
-        return self.geno(inp["samples"], inp["variants"], inp["rows"], [n, p, inp.get("planes", 3)])
+        n, p, k = len(inp["samples"]), len(inp["variants"]), inp.get("planes", 3)
+        rows = inp["rows"] if k >= 3 else [[c[:2] for c in r] for r in inp["rows"]]   # 2 planes: no phase plane
+        return self.geno(inp["samples"], inp["variants"], rows, [n, p, k])
 
     def geno_obs(self, o):
         return self.geno(o["samples"], o["variants"], o["rows"], o["shape"])
